@@ -45,7 +45,10 @@ def _real_env():
     USR_KINDS = [usr_constraint, (lambda spec: bool(spec.get("usr_flag", False))),
                  functools.partial(_usr_with, key="usr_flag"), _UsrCallable(), _UsrCallable().method]
 
-    types = {"A": nn.Conv2d, "B": nn.Linear, "C": nn.Conv1d}
+    class SubConv2d(nn.Conv2d):       # a user's layer type derived from a registered one (type "D" below "A")
+        pass
+
+    types = {"A": nn.Conv2d, "B": nn.Linear, "C": nn.Conv1d, "D": SubConv2d}
     constr0 = {"U": None, "dw": conv_dw_constraint, "k3": conv_3_constraint, "usr": usr_constraint}
 
     def layer_specs(sat, ty="A"):
@@ -72,13 +75,17 @@ def _real_env():
         out = []
         for ev in events:
             if ev[0] == "reg":
-                _, ty, p = ev
+                _, ty, p = ev[:3]
+                df = len(ev) > 3 and bool(ev[3])     # associate the spec's own default function object
 
                 def fn(spec, _tag=(ty, p)):
                     return _tag
-                fns[id(fn)] = (ty, p, fn)
-                cs[(types[ty], constr[p])] = fn
-                out.append({"a": "reg", "ty": ty, "p": p})
+                if df:
+                    cs[(types[ty], constr[p])] = cs.default
+                else:
+                    fns[id(fn)] = (ty, p, fn)
+                    cs[(types[ty], constr[p])] = fn
+                out.append({"a": "reg", "ty": ty, "p": p, "df": df})
             else:
                 _, ty, sat = ev[:3]
                 cands = layer_specs(sat, ty)
@@ -206,17 +213,37 @@ def run(tier: str, seed: int, replay=None) -> int:
     R.sample({"scenario": {"dflt": scen[-1]["dflt"], "registrations": [e for e in scen[-1]["events"] if e[0] == "reg"]},
               "observed": traces[-1]["ev"][-3:]})
 
+    # 2b. identity / derived types: every history of CostLookupIdMC (types A, D < A, B; registrations that associate the
+    #     spec's own default function object), all queries per history
+    R.design("CostLookupIdMC", "CostLookupIdMC_sentinel", expect_ok=False)     # sanity: default object as 'no match' marker
+    R.design("CostLookupIdMC", "CostLookupIdMC_mergebase", expect_ok=False)    # sanity: base-type lists merged into the lookup
+    dot2 = tempfile.mktemp(prefix="c15id-", suffix=".dot", dir=tlc.scratch())
+    res2 = R.design("CostLookupIdMC", "CostLookupIdMC_quick" if tier == "quick" else "CostLookupIdMC_fixed", dump_dot=dot2)
+    nodes2, _, _ = tlc.parse_dot(dot2 + ".dot" if not dot2.endswith(".dot") else dot2)
+    if len(nodes2) != res2.distinct:
+        raise tlc.MachineryError(f"dump has {len(nodes2)} states, TLC reported {res2.distinct}")
+    q_id = [(ty, list(s_)) for ty in ("A", "D", "B") for r_ in range(4) for s_ in itertools.combinations(CONSTR, r_)]
+    for st in nodes2.values():
+        if not st["reg"]:
+            continue
+        h = len(traces)
+        dset = {tuple(x) for x in st["dreg"]}
+        events = [("reg", ty, p, (ty, p) in dset) for ty, p in st["reg"]] + [("get", ty, sat, h) for ty, sat in q_id]
+        traces.append(execute(st["dflt"], events, h))
+        scen.append({"kind": "state-id", "dflt": st["dflt"], "events": [list(e) for e in events], "n_reg": len(st["reg"]),
+                     "usr_kind": h % 5})
+
     # 3. code -> spec: random interleavings (lookups between registrations must not disturb anything)
     rng = random.Random(seed)
     n_rand = 400 if tier == "quick" else 6000
-    pairs = [(ty, p) for ty in TYPES + ["C"] for p in ["U"] + CONSTR]
-    queries3 = ALL_QUERIES + [("C", list(s_)) for r_ in range(4) for s_ in itertools.combinations(CONSTR, r_)]
+    pairs = [(ty, p) for ty in TYPES + ["C", "D"] for p in ["U"] + CONSTR]
+    queries3 = ALL_QUERIES + [(t_, list(s_)) for t_ in ("C", "D") for r_ in range(4) for s_ in itertools.combinations(CONSTR, r_)]
     for _ in range(n_rand):
         k = rng.randint(1, 8)
         regs = rng.sample(pairs, k)
         events = []
         for r in regs:
-            events.append(("reg",) + r)
+            events.append(("reg",) + r + (rng.random() < 0.15,))
             for _ in range(rng.randint(0, 3)):
                 ty, sat = rng.choice(queries3)
                 events.append(("get", ty, sat, rng.randrange(1000)))
